@@ -619,6 +619,12 @@ func runC18(c *run.Ctx) {
 			c.Distinct(fmt.Sprintf("deep/%d", d))
 		})
 	}
+	// one run-time node used several times on one side of a comparison
+	fixedCases(c, sharedOperandCases(), func(c *run.Ctx, o *ProgObs) {
+		c.Count("pairs_checked", 1)
+		oracleC04(c, o)
+		compareBackends(c, o)
+	})
 	// values updated in place through the val API after they were rendered once
 	for i := 0; i < c.Pick(300, 20000); i++ {
 		if !c.Mine(i) {
